@@ -1,7 +1,67 @@
 import GluonModel.Sexp
-open GluonModel
+import GluonModel.ParOnce
+import GluonModel.ParLocks
+open GluonModel GluonModel.ParOnce GluonModel.ParLocks
+
+/-! Driver for C14: runs the `Once` cells on the event schedule of a `par` case and the exhaustive
+    interleaving search of the `Locks` model on a `locks` case. -/
+
+def natList (xs : List Sexp) : Option (List Nat) := xs.mapM Sexp.toNat?
+
+def parseMod : Sexp → Option (Int × List Nat)
+  | .list (c :: deps) => do
+    let c ← c.toInt?
+    let d ← natList deps
+    pure (c, d)
+  | _ => none
+
+def parseRole : Sexp → Option Role
+  | .list [.atom "plain"] => some .plain
+  | .list [.atom "prod", c, k] => do pure (.prod (← c.toNat?) (← k.toInt?))
+  | .list [.atom "cons", c, k] => do pure (.cons (← c.toNat?) (← k.toInt?))
+  | _ => none
+
+def parseProg : Sexp → Option Prog
+  | .list [.list (.atom "imports" :: is), a, r, role] => do
+    pure ⟨← natList is, ← a.toInt?, ← r.toInt?, ← parseRole role⟩
+  | _ => none
+
+def parseEv : Sexp → Option MEv
+  | .list [.atom "r", m, t] => do pure (.request (← m.toNat?) (← t.toNat?))
+  | .list [.atom "f", m] => do pure (.finish (← m.toNat?))
+  | .list [.atom "w", m, t] => do pure (.wake (← m.toNat?) (← t.toNat?))
+  | _ => none
+
+def renderResult : Option Int → String
+  | some v => "(ok " ++ toString v ++ ")"
+  | none => "(stuck)"
+
+def zipIdx {α : Type} (xs : List α) : List (Nat × α) := (List.range xs.length).zip xs
+
+def handlePar (mods : List Sexp) (progs : List Sexp) (sched : List Sexp) : String :=
+  match mods.mapM parseMod, progs.mapM parseProg, sched.mapM parseEv with
+  | some mods, some progs, some evs =>
+    let cells := mrun mods evs
+    let counts := cells.map (fun s => toString s.evals)
+    let results := (zipIdx progs).map (fun (t, p) => renderResult (progValue cells t p))
+    "(counts " ++ " ".intercalate counts ++ ") (results " ++ " ".intercalate results ++ ")"
+  | _, _, _ => "bad-request"
+
+def parseScen : Sexp → Option Scen
+  | .list [.atom "reroot", d, s] => do pure (.reroot (← d.toNat?) (← s.toNat?))
+  | .list [.atom "collect", t] => do pure (.collect (← t.toNat?))
+  | .list [.atom "push", c, o] => do pure (.push (← c.toNat?) (← o.toNat?))
+  | .list [.atom "newthread", p] => do pure (.newthread (← p.toNat?))
+  | _ => none
 
 def handle : List Sexp → String
-  | _ => "unimplemented"
+  | [.atom "par", .list (.atom "mods" :: mods), .list (.atom "progs" :: progs),
+      .list (.atom "sched" :: sched)] => handlePar mods progs sched
+  | .atom "locks" :: n :: ops =>
+    match n.toNat?, ops.mapM parseScen with
+    | some n, some ops =>
+      if canDeadlock (scenSys n ops) then "(deadlock true)" else "(deadlock false)"
+    | _, _ => "bad-request"
+  | _ => "bad-request"
 
 def main : IO Unit := driverLoop handle
